@@ -363,4 +363,171 @@ theorem rt_lvar (kw name colon ty : Tok) (h : (Stmt.lvar kw name colon ty : Stmt
         (ParsesList.cons htype (ParsesList.cons habs ParsesList.nil))))))
   exact stmt_via 11 gLocalVar [gControl, .ref nOqlExpr, gAssignment, .ref nExpr] rfl kw _ k _ hc (by rw [hkw]; decide +kernel) hg
 
+/-! ## statement lists -/
+
+omit hX
+
+/-- every statement of the list round-trips -/
+def AllRT (ss : List (Stmt ε)) : Prop := ∀ s ∈ ss, StmtRT X s
+
+theorem sstop_stmts_nil (ss : List (Stmt ε)) (h : Stmts.WF X ss) : SStop (Stmts.toks X ss) := by
+  simpa using sstop_stmts X ss h [] SStop.nil
+
+theorem loopCons_ok {x : Tree} (h : okTree x = true) (items : List Tree) (e : Tree) :
+    loopCons (Tree.seq [x, loopVal items e]) = loopVal (x :: items) e := by
+  simp [loopCons, loopVal, loopItems, loopEnd, Tree.nth, Tree.seq, Tree.kids, Tree.list, okTree_isNone h]
+
+theorem not_contains_of_sub {ks : List Kind} (hks : ∀ x ∈ ks, x ∈ stmtEnds) {x : Kind} (h : startOK x = true) :
+    ks.contains x = false := by
+  cases hc : ks.contains x with
+  | false => rfl
+  | true =>
+    have h1 := List.contains_iff_mem.mpr (hks _ (List.contains_iff_mem.mp hc))
+    rw [startOK_ends h] at h1
+    cases h1
+
+/-- `parse_until_w_context(stop, parse_statement_v2)`: a well-formed list followed by its stop token;
+    `recover` does not fire -/
+theorem until_loop (ks : List Kind) (self : Nat) (hΓ : Γ self = untilStop ks self) (hks : ∀ x ∈ ks, x ∈ stmtEnds)
+    (ss : List (Stmt ε)) (hwf : Stmts.WF X ss) (hrt : AllRT X ss) (endT : Tok) (he : endT.kind ∈ ks) (k : List Tok) :
+    Parses (.ref self) (Stmts.toks X ss ++ endT :: k) k (loopVal (Stmts.trees X ss) (.leaf endT)) := by
+  induction ss with
+  | nil =>
+    have hc := (ends_not_sbad _ (hks _ he)).2
+    simp only [Stmts.toks, Stmts.trees, List.nil_append]
+    apply Parses.ref
+    rw [hΓ]
+    exact Parses.map (fn := untilNorm)
+      (Parses.s_ifEof_cons (Parses.s_ifTok_hit hc (List.contains_iff_mem.mpr he) Parses.eps))
+  | cons s rest ih =>
+    obtain ⟨t, r, ht, hs⟩ := Stmt.first X s hwf.1
+    have hk' : SStop (Stmts.toks X rest ++ endT :: k) := sstop_stmts X rest hwf.2 _ (sstop_end k (hks _ he))
+    have hs' := hrt s List.mem_cons_self _ hk'
+    have ih' := ih hwf.2 (fun x hx => hrt x (List.mem_cons_of_mem _ hx))
+    simp only [Stmts.toks, Stmts.trees, List.append_assoc]
+    rw [ht] at hs' ⊢
+    simp only [List.cons_append] at hs' ⊢
+    apply Parses.ref
+    rw [hΓ]
+    have := Parses.map (fn := untilNorm) (Parses.s_ifEof_cons (a := .eps (loopVal [] Tree.none))
+      (Parses.s_ifTok_miss (a := .eps Tree.none) (startOK_comment hs) (not_contains_of_sub hks hs)
+        (Parses.map (fn := loopCons) (Parses.seq (Parses.s_recover (m := .skipTok) hs') ih'))))
+    rw [loopCons_ok (Stmt.tree_ok X s hwf.1)] at this
+    exact this
+
+/-- `parse_method_body` on the cut-out slice: a well-formed list up to the end of the slice -/
+theorem body_loop (ss : List (Stmt ε)) (hwf : Stmts.WF X ss) (hrt : AllRT X ss) :
+    Parses (.ref nBody) (Stmts.toks X ss) [] (Tree.list (Stmts.trees X ss)) := by
+  induction ss with
+  | nil =>
+    simp only [Stmts.toks, Stmts.trees]
+    exact Parses.ref (n := nBody) (Parses.s_ifEof_nil Parses.eps)
+  | cons s rest ih =>
+    obtain ⟨t, r, ht, hs⟩ := Stmt.first X s hwf.1
+    have hs' := hrt s List.mem_cons_self _ (sstop_stmts_nil X rest hwf.2)
+    have ih' := ih hwf.2 (fun x hx => hrt x (List.mem_cons_of_mem _ hx))
+    simp only [Stmts.toks, Stmts.trees]
+    rw [ht] at hs' ⊢
+    simp only [List.cons_append] at hs' ⊢
+    have := Parses.map (fn := fun v => Tree.list (optList (v.nth 0) ++ (v.nth 1).kids))
+      (Parses.seq (Parses.s_recover (m := .skipTok) hs') ih')
+    exact Parses.ref (n := nBody) (Parses.s_ifEof_cons (a := .eps (Tree.list [])) (this.s_to (by
+      simp [Tree.nth, Tree.seq, Tree.kids, Tree.list, optList_ok (Stmt.tree_ok X s hwf.1)])))
+
+/-! ## loops -/
+
+include hX
+
+theorem rt_while (kw : Tok) (c : ε) (body : List (Stmt ε)) (endT : Tok) (h : (Stmt.whileS kw c body endT).WF X)
+    (hrt : AllRT X body) : StmtRT X (.whileS kw c body endT) := by
+  intro k hk
+  obtain ⟨hkw, hc, hb, he⟩ := h
+  obtain ⟨hw, _⟩ := exprOK_split X hc
+  have hcm : kw.kind ≠ Kind.Comment := by rw [hkw]; decide
+  have hcond := hX.parses c hw (Stmts.toks X body ++ endT :: k)
+    (sstop_stmts X body hb _ (sstop_end k (by rw [he]; decide))).stop8
+  have hloop := until_loop X [Kind.EndWhile, Kind.End] nUntilEndWhile rfl (by decide) body hb hrt endT (by rw [he]; simp) k
+  have hg : Parses gWhile (kw :: (X.toks c ++ (Stmts.toks X body ++ endT :: k))) k
+      (Stmt.tree X (.whileS kw c body endT)) :=
+    (Parses.map (Parses.seqL (ParsesList.cons (Parses.tok hkw) (ParsesList.cons hcond
+      (ParsesList.cons hloop ParsesList.nil))))).s_to rfl
+  have hfin := stmt_via 3 gWhile [gLoop, gSwitch, gRepeat, gComment, gUses, gConstDecl, gTypeDecl, gLocalVar, gControl,
+    .ref nOqlExpr, gAssignment, .ref nExpr] rfl kw _ k _ hcm (by rw [hkw]; decide +kernel) hg
+  simpa [Stmt.toks] using hfin
+
+omit hX in
+theorem rt_loop (kw : Tok) (body : List (Stmt ε)) (endT : Tok) (h : (Stmt.loopS kw body endT).WF X)
+    (hrt : AllRT X body) : StmtRT X (.loopS kw body endT) := by
+  intro k hk
+  obtain ⟨hkw, hb, he⟩ := h
+  have hcm : kw.kind ≠ Kind.Comment := by rw [hkw]; decide
+  have hloop := until_loop X [Kind.EndLoop, Kind.End] nUntilEndLoop rfl (by decide) body hb hrt endT (by rw [he]; simp) k
+  have hg : Parses gLoop (kw :: (Stmts.toks X body ++ endT :: k)) k (Stmt.tree X (.loopS kw body endT)) :=
+    (Parses.map (Parses.seqL (ParsesList.cons (Parses.tok hkw) (ParsesList.cons hloop ParsesList.nil)))).s_to rfl
+  have hfin := stmt_via 4 gLoop [gSwitch, gRepeat, gComment, gUses, gConstDecl, gTypeDecl, gLocalVar, gControl,
+    .ref nOqlExpr, gAssignment, .ref nExpr] rfl kw _ k _ hcm (by rw [hkw]; decide +kernel) hg
+  simpa [Stmt.toks] using hfin
+
+/-- `lo to hi` (`parse_binary_ops` over `to`/`downto`) -/
+theorem for_range (lo hi : ε) (to : Tok) (R2 : List Tok) (hlo : exprOKb X lo = true) (hhi : exprOKb X hi = true)
+    (hto : to.kind ∈ toKinds) (h8 : Stop 8 R2) (hnt : Fails (toks toKinds) R2) :
+    Parses gForRange (X.toks lo ++ to :: (X.toks hi ++ R2)) R2 (binNode (X.tree lo) (.leaf to) (X.tree hi)) := by
+  obtain ⟨hwl, _⟩ := exprOK_split X hlo
+  obtain ⟨hwh, hokh⟩ := exprOK_split X hhi
+  obtain ⟨htb, htc⟩ := to_table _ hto
+  have h1 := hX.parses lo hwl (to :: (X.toks hi ++ R2)) (by intro t r e; cases e; exact htb)
+  have h2 := hX.parses hi hwh R2 h8
+  have htl0 : Parses (.ref nForRangeTail) R2 R2 (tailOf []) :=
+    Parses.ref (n := nForRangeTail) (Parses.alt2 (Fails.seq1 hnt) Parses.eps)
+  have htl : Parses (.ref nForRangeTail) (to :: (X.toks hi ++ R2)) R2 (tailOf [(.leaf to, X.tree hi)]) :=
+    Parses.ref (n := nForRangeTail) (Parses.alt1 (Parses.seq (Parses.toks hto htc) (Parses.seq h2 htl0)))
+  have := Parses.map (fn := fun v : Tree => foldBin (treeDepth v) (v.nth 0) (v.nth 1)) (Parses.seq h1 htl)
+  rw [fold_value _ _ (by
+    intro p hp
+    simp only [List.mem_cons, List.not_mem_nil, or_false] at hp
+    subst hp
+    exact okTree_notCaught hokh)] at this
+  exact this
+
+theorem rt_for (kw var eq : Tok) (lo : ε) (to : Tok) (hi : ε) (step : Option (Tok × ε)) (body : List (Stmt ε)) (endT : Tok)
+    (h : (Stmt.forS kw var eq lo to hi step body endT).WF X) (hrt : AllRT X body) :
+    StmtRT X (.forS kw var eq lo to hi step body endT) := by
+  intro k hk
+  obtain ⟨hkw, hvar, heq, hlo, hto, hhi, hstep, hb, he⟩ := h
+  have hcm : kw.kind ≠ Kind.Comment := by rw [hkw]; decide
+  have hsb : SStop (Stmts.toks X body ++ endT :: k) := sstop_stmts X body hb _ (sstop_end k (by rw [he]; decide))
+  have hloop := until_loop X [Kind.EndFor, Kind.End] nUntilEndFor rfl (by decide) body hb hrt endT (by rw [he]; simp) k
+  have hfin : Parses (.ref nStatement)
+      (kw :: var :: eq :: (X.toks lo ++ to :: (X.toks hi ++ (stepToks X step ++ (Stmts.toks X body ++ endT :: k))))) k
+      (Stmt.tree X (.forS kw var eq lo to hi step body endT)) := by
+    refine stmt_via 1 gFor [gForEach, gWhile, gLoop, gSwitch, gRepeat, gComment, gUses, gConstDecl, gTypeDecl, gLocalVar,
+      gControl, .ref nOqlExpr, gAssignment, .ref nExpr] rfl kw _ k _ hcm (by rw [hkw]; decide +kernel) ?_
+    cases step with
+    | none =>
+      have hr := for_range X hX lo hi to (Stmts.toks X body ++ endT :: k) hlo hhi hto hsb.stop8
+        (hsb.fails_toks _ (by decide +kernel))
+      have hst : Parses (.dep (.opt (.tok Kind.Step)) Tree.isSome (.opt (.ref nExpr))) (Stmts.toks X body ++ endT :: k)
+          (Stmts.toks X body ++ endT :: k) (Tree.seq [Tree.none, Tree.none]) :=
+        Parses.s_dep_no (Parses.s_opt_none (hsb.fails_tok _ (by decide +kernel))) rfl
+      exact (Parses.map (Parses.seqL (ParsesList.cons (Parses.tok hkw) (ParsesList.cons (Parses.tok hvar)
+        (ParsesList.cons (Parses.tok heq) (ParsesList.cons hr (ParsesList.cons hst
+          (ParsesList.cons hloop ParsesList.nil)))))))).s_to rfl
+    | some p =>
+      obtain ⟨st, se⟩ := p
+      obtain ⟨hst1, hse⟩ := hstep
+      obtain ⟨hws, hoks⟩ := exprOK_split X hse
+      have hr := for_range X hX lo hi to (st :: (X.toks se ++ (Stmts.toks X body ++ endT :: k))) hlo hhi hto
+        (by intro t r e; cases e; rw [hst1]; decide +kernel)
+        (Fails.toks (by rw [hst1]; decide) (by rw [hst1]; decide))
+      have hst : Parses (.dep (.opt (.tok Kind.Step)) Tree.isSome (.opt (.ref nExpr)))
+          (st :: (X.toks se ++ (Stmts.toks X body ++ endT :: k)))
+          (Stmts.toks X body ++ endT :: k) (Tree.seq [.leaf st, X.tree se]) :=
+        Parses.s_dep_yes (Parses.s_opt (Parses.tok hst1)) rfl (Parses.s_opt (hX.parses se hws _ hsb.stop8))
+      exact (Parses.map (Parses.seqL (ParsesList.cons (Parses.tok hkw) (ParsesList.cons (Parses.tok hvar)
+        (ParsesList.cons (Parses.tok heq) (ParsesList.cons hr (ParsesList.cons hst
+          (ParsesList.cons hloop ParsesList.nil)))))))).s_to (by
+            simp [Stmt.tree, Tree.nth, Tree.seq, Tree.kids, optList_ok hoks, loopItems, loopEnd, loopVal, Tree.list,
+              Tree.isSome, Tree.isNone, Tree.rng, Tree.ident])
+  simpa [Stmt.toks, stepToks] using hfin
+
 end Gold.C06
